@@ -159,6 +159,16 @@ CHECKS["C18"] = dict(
          "bounded domain; the real parser's complete return sequence and cursor after every call, and the real dump text, "
          "are compared with the specification for ~66k strings, 570 arrays and random long strings with arbitrary bytes.",
     note="Memory safety beyond the executed inputs is not proved (ASan observation on exact-size buffers).")
+CHECKS["C11"] = dict(
+    engine="tlc+tracecheck", category=MC, design_ref="DESIGN.md section 4/C11",
+    technique="TLA+ spec (BinTree.tla: Morris threads and tag bits as state, one action per bintree_next / deallocation) "
+              "model-checked with TLC from every tree shape up to 6/8 nodes; the real bintree.c run on the same shapes and on "
+              "large random/degenerate shapes, every returned node and full link image validated by TLC against TraceBinTree.tla",
+    text="TLC checks order = recursive traversal, each node once, links restored at completion, threads well formed, no read "
+         "after free and children-before-parents for all 197 (quick) / 2056 (thorough) shapes x 4 procedures + list spines; the "
+         "compiled bintree.c must produce the same returned node and the same temporary link image after every call.",
+    note="bintree.c is compiled directly by the driver (it is not in librfn's build). Reads of freed nodes are observed by "
+         "ASan (nodes are poisoned and really freed), not proved absent beyond the executed shapes.")
 NOT_YET = "check not built yet (work in progress; planned per DESIGN.md section 4)"
 NA = {}
 
